@@ -25,6 +25,7 @@ from . import compare, executor, gen, ops
 from .choices import Choices
 
 PROP = "C13"
+FAULT_EVERY = 3  # every 3rd run is the fault configuration (pool-level and statement-level faults)
 BATCH = 40
 SHRINK_EVALS = 600
 JOB_TIMEOUT_S = 1800
@@ -74,6 +75,13 @@ def _outcome(fn):
         if isinstance(e, (KeyboardInterrupt, SystemExit, executor.ProtocolError)) and not isinstance(e, executor.InjectedInterrupt):
             raise
         return ("raise", type(e).__name__, compare.msg(e, 160))
+
+
+def _traced(tracer, fn):
+    if tracer is None:
+        return fn()
+    with tracer:
+        return fn()
 
 
 def _layout_of(gb):
@@ -147,9 +155,12 @@ def gen_step(s: Choices, ds, tier, early=False):
         return step
     if kind == "copy_ctor":
         return {"kind": "copy_ctor", "target": s.draw(4)}
-    fk = s.weighted([(2, "short_values"), (2, "long_values"), (2, "bad_mask_len"), (2, "user_func_raises")])
+    fk = s.weighted([(2, "short_values"), (2, "long_values"), (2, "bad_mask_len"), (2, "user_func_raises"), (2, "bad_q")])
     if fk == "user_func_raises":
         op = {"op": "apply", "cols": [0], "transform": False, "mask": {"kind": "none"}, "func": "raises"}
+    elif fk == "bad_q":
+        # an argument found invalid late: NumPy rejects q > 1 inside the per-group worker function
+        op = {"op": "quantile", "cols": [0], "transform": False, "mask": {"kind": "none"}, "q": [[0.25, 1.5], [1.5], [0.5, 0.75, -0.1]][s.draw(3)]}
     else:
         opn = s.weighted([(2, "sum"), (1, "min"), (1, "cumsum"), (1, "count")])
         op = {"op": opn, "cols": [0], "transform": bool(s.draw(2)) if opn != "cumsum" else False, "observed_only": True, "mask": {"kind": "none"}, "skip_na": True}
@@ -432,13 +443,72 @@ def gen_scenario(scen: Choices, cls, cfg):
     fault = None
     fault_step = None
     if cfg.get("fault_mode"):
-        fault = gen.gen_fault(scen)
-        # a fault with nothing in flight tests nothing: prefer steps that go through the pool
-        cand = [i for i, s_ in enumerate(steps) if s_.get("op", {}).get("op") in ops.BASIC + ops.COMPOSITE] or list(range(nsteps))
+        fault = gen.gen_fault(scen, stmt=True)
+        if fault["kind"] in gen.STMT_KINDS:
+            # a crash / interrupt between two statements matters where the object re-organises
+            # itself: prefer the steps that do, and never the last step (somebody has to look)
+            cand = [i for i, s_ in enumerate(steps[:-1]) if s_.get("op", {}).get("op") in ops.UNIFYING and s_["kind"] == "op"]
+            cand = cand or [i for i, s_ in enumerate(steps[:-1]) if s_["kind"] == "op"] or list(range(nsteps))
+        else:
+            # a fault with nothing in flight tests nothing: prefer steps that go through the pool
+            cand = [i for i, s_ in enumerate(steps) if s_.get("op", {}).get("op") in ops.BASIC + ops.COMPOSITE] or list(range(nsteps))
         fault_step = cand[scen.draw(len(cand))]
         fault["k"] = min(fault["k"], 3)
 
+    # what a client does after a call failed: the same call again, or a close relative of it
+    # (anything the failed call left behind on the object shows there first)
+    failing = [i for i, s_ in enumerate(steps) if s_["kind"] == "failing_call"]
+    if fault_step is not None and steps[fault_step]["kind"] in ("op", "failing_call"):
+        failing.append(fault_step)
+    inserted = 0
+    fault_step0 = fault_step
+    for i in sorted(set(failing)):
+        if len(steps) >= max_steps + 2 or not scen.chance(1, 2):
+            continue
+        rel = _relative_step(scen, steps[i + inserted], ds)
+        steps.insert(i + inserted + 1, rel)
+        if fault_step is not None and i < fault_step0:
+            fault_step += 1
+        inserted += 1
     return {"ds": ds, "sort": sort, "lay": lay, "st": st, "steps": steps, "fault": fault, "fault_step": fault_step}
+
+
+_FAMILY_OF_APPLY = ("apply", "median", "quantile")
+
+
+def _relative_step(scen, step, ds):
+    """A step likely to share internal machinery with `step`: the same call again (a retry, with
+    valid arguments), or another member of its family."""
+    import copy as _copy
+
+    op = _copy.deepcopy(step["op"])
+    name = op["op"]
+    for k_ in ("mask_ref", "mask_version"):
+        op.pop(k_, None)
+    if name in _FAMILY_OF_APPLY:
+        which = scen.weighted([(3, "apply_vector"), (1, "apply_spread"), (1, "quantile"), (1, "median")])
+        mask = op.get("mask", {"kind": "none"})
+        if which == "apply_vector":
+            op = {"op": "apply", "cols": op["cols"], "transform": False, "mask": mask, "func": "first_two"}
+        elif which == "apply_spread":
+            op = {"op": "apply", "cols": op["cols"], "transform": bool(scen.draw(2)), "mask": mask, "func": "spread"}
+        elif which == "quantile":
+            op = {"op": "quantile", "cols": op["cols"], "transform": False, "mask": mask, "q": [[0.5], [0.25, 0.75], [0.0, 0.5, 1.0]][scen.draw(3)]}
+        else:
+            op = {"op": "median", "cols": op["cols"], "transform": bool(scen.draw(2)), "mask": mask}
+    elif name.startswith("rolling_"):
+        op["op"] = "rolling_" + ["sum", "mean", "min", "max"][scen.draw(4)]
+        op["ibg"] = bool(scen.draw(2))
+    elif name in ("ema", "ema_timed"):
+        op["ibg"] = bool(scen.draw(2))
+    elif name in ("cumsum", "cummin", "cummax"):
+        op["op"] = ["cumsum", "cummin", "cummax"][scen.draw(3)]
+    elif name in ("head", "tail", "nth") and "n" in op:
+        op["op"] = ["head", "tail"][scen.draw(2)]
+        op["n"] = [1, 2, 1000][scen.draw(3)]
+    elif "transform" in op and name in ops.BASIC:
+        op["transform"] = bool(scen.draw(2))
+    return {"kind": "op", "op": op, "target": step.get("target", 0)}
 
 
 def execute(sc, sched: Choices, cls, cfg):
@@ -499,6 +569,7 @@ def execute(sc, sched: Choices, cls, cfg):
     history_prefix = []
     layout_changed_at = None
     fault_happened = False
+    fault_where = None
     prev_state = (layout0, _cache_mask(reused))
     states.add(prev_state)
     probes.add(f"state_{layout0}")
@@ -553,6 +624,10 @@ def execute(sc, sched: Choices, cls, cfg):
         tol = ops.tolerance(op, ops.sanitize(ds, op), list(range(ds["n"])) if op.get("values_version") else gen.mask_rows(ds, mask))
         unordered = op["op"] in ops.UNORDERED
         # ---- fresh model ----
+        this_fault = fault if (fault is not None and fault_step == si) else None
+        dry = None  # statement-level fault: the model call doubles as the traced dry run
+        if this_fault is not None and this_fault["kind"] in gen.STMT_KINDS:
+            dry = executor.LineTracer(None, mode=this_fault.get("mode", 0))
         ctxm = new_ctx()
         with executor.use_context(ctxm):
             if kind == "class_form":
@@ -563,12 +638,15 @@ def execute(sc, sched: Choices, cls, cfg):
                 elif step.get("refill_keys_first") and _refill_in_place(client[ck]):
                     probes.add("client_refilled_key_buffer")
                 class_keys = client[ck]
-                model = _outcome(lambda: _step_call(GroupBy(class_keys), dict(step, kind="op"), ds, lay, client=client, raw_keys=class_keys))
+                model = _outcome(lambda: _traced(dry, lambda: _step_call(GroupBy(class_keys), dict(step, kind="op"), ds, lay, client=client, raw_keys=class_keys)))
             else:
-                model = _outcome(lambda: _step_call(construct(), step, ds, lay, client=client))
+                # (the construction of the fresh object is not part of the reused object's call)
+                model = _outcome(lambda: (lambda fresh_: _traced(dry, lambda: _step_call(fresh_, step, ds, lay, client=client)))(construct()))
         account(ctxm)
         # ---- reused object ----
-        this_fault = fault if (fault is not None and fault_step == si) else None
+        if dry is not None:
+            this_fault = gen.arm_stmt_fault(this_fault, dry.count)
+            probes.add("stmt_fault_armed")
         ctxr = new_ctx(this_fault)
         layout_before = _layout_of(reused)
         with executor.use_context(ctxr):
@@ -581,6 +659,9 @@ def execute(sc, sched: Choices, cls, cfg):
         if fired:
             rec["faults"].append(fired)
             fault_happened = True
+            if ctxr.fault_where:
+                fault_where = ctxr.fault_where
+                rec.setdefault("fault_sites", []).append(fault_where)
         results.append((model, got))
         layout_after = _layout_of(reused)
         state = (layout_after if not (layout_before.startswith("chunked") and layout_after == "contiguous") else "contiguous-after-unify", _cache_mask(reused))
@@ -620,6 +701,8 @@ def execute(sc, sched: Choices, cls, cfg):
             "history": list(history_prefix),
             "fault": fired or ("earlier" if fault_happened else "none"),
         }
+        if fault_where:
+            features["fault_where"] = fault_where
 
         def add(check, outcome, expected, actual, **kw):
             rec["violations"].append({"site": dict(site, check=check, outcome=outcome, **kw), "features": dict(features), "expected": expected, "actual": actual})
